@@ -1,5 +1,5 @@
 (* Determ/Extract.v — extraction of the C07 model (ExtrOcamlBasic only) *)
 From Coq Require Import ExtrOcamlBasic ZArith NArith.
-From ZV Require Import Determ.Model.
+From ZV Require Import Determ.Model Determ.ModelRW.
 Extraction Language OCaml.
-Extraction "model.ml" Z.of_N N.of_nat Nat.add run_trace run_trace_gen jreply mkReq mkCall.
+Extraction "model.ml" Z.of_N N.of_nat Nat.add run_trace run_trace_gen jreply ws_covered wset_classes mkReq mkCall.
